@@ -80,7 +80,7 @@ def gen(ch):
         ob["orders_df"] = True
     if ch.pick("full_exec", [False, True]):
         ob["full_exec"] = True
-    w = ch.pick("ob.wacc", [0.0, 0.3])
+    w = ch.free("ob.wacc", [0.0, 0.3])
     if w:
         ob["wacc"] = w
     pos = ch.free("ob.pos", ["last", "first", "middle"])
